@@ -35,6 +35,13 @@ func (c *Ctx) ruleRetryRequeue(rr *RuleRep, rr18 *RuleRep, modeOpt ...string) {
 	// snapshot: a value that is append(fresh, load retryQueue...)
 	var snap ssa.Value
 	eachInstr(f, func(in ssa.Instruction) {
+		if mk, ok := in.(*ssa.MakeSlice); ok {
+			if src := c.makeCopySource(mk); src != nil {
+				if _, isRQ := isLoadOfField(src, a.RetryQueue); isRQ {
+					snap = mk
+				}
+			}
+		}
 		call, ok := in.(*ssa.Call)
 		if !ok {
 			return
